@@ -232,7 +232,8 @@ ABS_TPL = ["{d:02d}.{m:02d}.{y}", "{d}.{m}.{y}", "{d:02d}/{m:02d}/{y}", "{d:02d}
            "{d}/{m}/{y}", "{d}-{m}-{y}", "{d}. {M} {y}", "{d} {M} {y}", "{M} {d} {y}",
            "{M} {o} {y}", "{o} of {M} {y}", "{o} {M} {y}", "{d}.{M}.{y}",
            "{d:02d}.{m:02d}.{yy:02d}", "{d}.{m}.{yy:02d}"]
-ABS_CLOCK = ["", "", " {h}:{mi:02d}", " {h:02d}:{mi:02d}", " um {h}:{mi:02d} uhr",
+ABS_CLOCK = ["", "", " {h}:{mi:02d}", " {h:02d}:{mi:02d}", " {h}:{mi:02d}:{ss:02d}",
+             " um {h}:{mi:02d} uhr",
              " at {h}:{mi:02d}", " {h}:{mi:02d} uhr", " {h12}:{mi:02d} {ap}", " at {h12}:{mi:02d}{ap}"]
 MONTHNAME_TPLS = {t for t in ABS_TPL if "{M}" in t}
 
@@ -262,9 +263,12 @@ def c05_forms(rng, n):
         h12 = h % 12 or 12
         ap = "am" if h < 12 else "pm"
         ds = tpl.format(d=d, m=m, y=y, yy=y % 100, M=M, o=_ord_en(d))
-        cs = ck.format(h=h, mi=mi, h12=h12, ap=ap).strip()
+        cs = ck.format(h=h, mi=mi, h12=h12, ap=ap, ss=rng.choice([0, 7, 30, 59])).strip()
         order = "date-clock"
-        if cs and rng.random() < 0.25:
+        # (a clock with seconds only AFTER the date: the rule base knows no seconds, a trailing
+        # ":ss" is dropped there, while in front of a date the same characters start other
+        # matches - not a notation the property names)
+        if cs and rng.random() < 0.25 and "{ss" not in ck:
             # clock part first (ruleTODDate), optionally joined by on/am
             if cs.startswith(("um ", "at ")):
                 cs = cs[3:]
